@@ -7,7 +7,7 @@
  *     C15_DIGITS(W, MAX)  accumulate_digits< I, MAX > : every accumulator start value, every digit string up to NL digits
  *     C15_CPOS(W, MAX) / C15_CUNS(W, MAX)              : convert_positive / convert_unsigned from result == 0
  *     C15_CNEG(W) / C15_CSIG(W)                        : convert_negative / convert_signed< I >
- * each followed by its REACH witnesses and wrapped in  #if V_<wrapper> ... #endif  so that one CBMC query takes one kernel
+ * each with its REACH witnesses and wrapped in  #if V_<wrapper> ... #endif  so that one CBMC query takes one kernel
  * (the native builds run all of them).
  *
  * Specification arithmetic: unsigned __int128 for 64-bit kernels, u64 for narrower ones (values stay below 2^36 there).
@@ -82,37 +82,43 @@ static cv_val cv_v;
     OBS(o[0]); OBS(o[1]); \
   } while (0)
 
-#define C15_FOLD(W, MAX, R0, WHAT) do { \
+/* every kernel macro: specification first, then WIT (REACH witnesses about the drawn input, placed before the call so that they do
+ * not depend on what the code under test does with it), then the call and the comparison */
+#define C15_FOLD(W, MAX, R0, WHAT, WIT) do { \
     u64 o[2] = {7, 7}; \
-    W(cv_buf, cv_n, (R0), o); \
+    cv_neg = 0; \
     cv_ok = cv_fold((cv_val)(R0), (cv_val)(MAX), &cv_v); \
+    WIT \
+    W(cv_buf, cv_n, (R0), o); \
     CHECK(o[0] == (u64)cv_ok, WHAT " returns true iff the exact value fits Maximum"); \
     if (cv_ok) CHECK(o[1] == (u64)cv_v, WHAT " stores the mathematically exact value"); \
     else CHECK(o[1] == (u64)cv_v, WHAT " on overflow holds the exact value of the longest prefix that fits, never a wrapped value"); \
     OBS(o[0]); OBS(o[1]); \
   } while (0)
 
-#define C15_DIGITS(W, MAX) C15_FOLD(W, MAX, cv_r0, "accumulate_digits")
+#define C15_DIGITS(W, MAX, WIT) C15_FOLD(W, MAX, cv_r0, "accumulate_digits", WIT)
 /* convert_*: "assumes result == 0 and a non-empty sequence of digits" */
-#define C15_CPOS(W, MAX) C15_FOLD(W, MAX, 0, "convert_positive")
-#define C15_CUNS(W, MAX) C15_FOLD(W, MAX, 0, "convert_unsigned")
+#define C15_CPOS(W, MAX, WIT) C15_FOLD(W, MAX, 0, "convert_positive", WIT)
+#define C15_CUNS(W, MAX, WIT) C15_FOLD(W, MAX, 0, "convert_unsigned", WIT)
 
-#define C15_CNEG(W) do { \
+#define C15_CNEG(W, WIT) do { \
     u64 o[2] = {7, 7}; \
-    W(cv_buf, cv_n, cv_r0, o); \
     cv_neg = 1; \
     cv_ok = cv_fold(0, (cv_val)CV_SMAX + 1, &cv_v); \
+    WIT \
+    W(cv_buf, cv_n, cv_r0, o); \
     CHECK(o[0] == (u64)cv_ok, "convert_negative returns true iff the magnitude is at most -(minimum)"); \
     if (cv_ok) CHECK(o[1] == ((0 - (u64)cv_v) & CV_MASK), "convert_negative stores exactly minus the value"); \
     else CHECK(o[1] == cv_r0, "convert_negative leaves the result untouched on overflow"); \
     OBS(o[0]); OBS(o[1]); \
   } while (0)
 
-#define C15_CSIG(W) do { \
+#define C15_CSIG(W, WIT) do { \
     u64 o[2] = {7, 7}; \
-    W(cv_sbuf, cv_sn, 0, o); \
     cv_neg = cv_sign == 2; \
     cv_ok = cv_fold(0, (cv_val)CV_SMAX + (cv_neg ? 1 : 0), &cv_v); \
+    WIT \
+    W(cv_sbuf, cv_sn, 0, o); \
     CHECK(o[0] == (u64)cv_ok, "convert_signed returns true iff the value fits the signed type"); \
     if (cv_ok) CHECK(o[1] == ((cv_neg ? 0 - (u64)cv_v : (u64)cv_v) & CV_MASK), "convert_signed stores the mathematically exact value"); \
     else CHECK(o[1] == (cv_neg ? 0 : (u64)cv_v), "convert_signed on overflow holds 0 or the exact value of a prefix, never a wrapped value"); \
